@@ -200,7 +200,7 @@ def evaluate(case):
     try:
         reader = FortranStringReader(case["src"], ignore_comments=not keep)
         items = list(reader)
-    except Exception as e:  # noqa: BLE001
+    except (Exception, SystemExit) as e:  # noqa: BLE001 - reader.error() ends in sys.exit()
         return Result(False, "reader-exception:%s" % type(e).__name__, nontrivial, labels, {"error": str(e)[:300]})
     mode = reader.format.mode
     if (mode == "fix") != bool(case["fixed"]):
@@ -214,7 +214,7 @@ def evaluate(case):
             if got[field] != e[field]:
                 tag = ""
                 if (field == "text" and "blank_at_col72" in feats and
-                        got["text"].replace(" ", "") == e["text"].replace(" ", "")):
+                        "".join(got["text"].split()) == "".join(e["text"].split())):
                     tag = "+col72blank"
                 return Result(False, "%s-mismatch:%s%s" % (field, e["kind"], tag), nontrivial, labels,
                               {"index": i, "expected": e, "got": got,
